@@ -495,13 +495,15 @@ def context_targets(ctx, rng):
 
 
 def union_pointers(ctx):
-    """Pinned witness of the open finding K11: a pointer that is a member of a fixed-size union (directly or in a
-    nested structure) dereferences at the absolute stream offset like any other pointer."""
+    """A pointer that is a member of a fixed-size union (directly, in a nested structure, in an array) dereferences at
+    the absolute offset of the stream the union was read from, like any other pointer -- also after another member of
+    the union was assigned (the members are re-read from the union's own bytes then) -- and leaves that stream where
+    it was (open finding K11 until repair 91)."""
     import io
 
     for compiled in (True, False):
         for endian in "<>":
-            text = ("struct inn { uint8 *q; uint8 t; };\nunion u { uint8 *p; uint32 raw; inn s; };\n"
+            text = ("struct inn { uint8 *q; uint8 t; };\nunion u { uint8 *p; uint32 raw; inn s; uint8 *arr[2]; };\n"
                     "struct outer { uint8 pad[4]; u un; };")
             ctx.evaluation(("union-pointers", compiled, endian))
             ctx.cell("union-pointers")
@@ -510,19 +512,28 @@ def union_pointers(ctx):
                 cs = lib.cstruct(endian=endian, pointer="uint8")
                 cs.load(text, compiled=compiled)
                 data = b"\x99\x98\x97\x96" + b"\x02\x00\x11\x22" + b"\xaa\xbb"
-                o = cs.outer(io.BytesIO(data))
+                fh = io.BytesIO(data)
+                o = cs.outer(fh)
+                pos = fh.tell()
                 got = []
-                for ptr in (o.un.p, o.un.s.q):
+                for ptr in (o.un.p, o.un.s.q, o.un.arr[0]):
                     try:
                         got.append(int(ptr.dereference()))
                     except Exception as e:  # noqa: BLE001
                         got.append(type(e).__name__)
+                try:
+                    o.un.raw = 9 if endian == "<" else 9 << 24      # the pointer members now hold address 9
+                    got.append(int(o.un.p.dereference()))
+                    got.append(int(o.un.s.q.dereference()))
+                except Exception as e:  # noqa: BLE001
+                    got.append(type(e).__name__)
+                got.append(fh.tell() == pos)
             except Exception as e:  # noqa: BLE001
                 ctx.violation("union-pointers", f"pointer-in-union-raises:{type(e).__name__}", dict(det, error=lib.exc_sig(e)))
                 continue
-            if got != [0x97, 0x97]:
-                ctx.violation("union-pointers", "K11:pointer-inside-a-fixed-size-union-dereferences-into-the-unions-private-buffer",
-                              dict(det, got=repr(got), want="[0x97, 0x97] (absolute offset 2 of the stream)"))
+            if got != [0x97, 0x97, 0x97, 0xBB, 0xBB, True]:
+                ctx.violation("union-pointers", "pointer-inside-a-fixed-size-union-dereferences-into-the-unions-private-buffer",
+                              dict(det, got=repr(got), want="[0x97, 0x97, 0x97, 0xbb, 0xbb, True] (absolute offsets 2 and 9 of the stream)"))
             else:
                 ctx.event("union_pointers_absolute")
 
@@ -604,6 +615,53 @@ def linked_structures(ctx):
                         ctx.event("linked_structures_checked")
 
 
+def pointers_in_array_elements(ctx):
+    """Pointers inside the elements of an array of structures (counted and fixed arrays, structures and unions as
+    elements): each one dereferences at its absolute address in the caller's stream."""
+    import io
+
+    for ptr in ("uint8", "uint16", "uint32", "uint64"):
+        for endian in "<>":
+            for compiled in (True, False):
+                text = ("struct entry { uint8 id; uint16 *p; };\nunion alt { uint16 *q; uint8 raw[8]; };\n"
+                        "struct tab { uint8 count; entry entries[count]; entry pair[2]; alt alts[2]; uint8 end; };")
+                ctx.evaluation(("pointers-in-array-elements", ptr, endian, compiled))
+                ctx.cell("pointers-in-array-elements")
+                det = {"text": text, "ptr": ptr, "endian": endian, "compiled": compiled, "workload": "pointers-in-array-elements"}
+                try:
+                    cs = lib.load(text, endian, False, compiled, ptr)
+                    w = len(cs.pointer)
+                    bo = "little" if endian == "<" else "big"
+                    esize = 1 + w
+                    body_len = 1 + 2 * esize + 2 * esize + 2 * 8 + 1
+                    tgt = body_len + 3                       # targets: six uint16 values behind the structure
+                    addrs = [tgt + 2 * i for i in range(6)]
+                    body = bytes([2])
+                    for i in range(4):
+                        body += bytes([0x10 + i]) + addrs[i].to_bytes(w, bo)
+                    for i in range(2):
+                        body += addrs[4 + i].to_bytes(w, bo).ljust(8, b"\x00") if endian == "<" else \
+                            addrs[4 + i].to_bytes(w, bo) + bytes(8 - w)
+                    body += bytes([0xEE])
+                    vals = [0x1111 * (i + 1) for i in range(6)]
+                    data = body + b"\x00\x00\x00" + b"".join(v.to_bytes(2, bo) for v in vals)
+                    fh = io.BytesIO(data)
+                    o = cs.tab(fh)
+                    pos = fh.tell()
+                    ptrs = [e.p for e in o.entries] + [e.p for e in o.pair] + [a.q for a in o.alts]
+                    got = ([int(p) for p in ptrs], [int(p.dereference()) for p in ptrs], all(p._stream is fh for p in ptrs),
+                           fh.tell() == pos, int(o.end))
+                    want = (addrs, vals, True, True, 0xEE)
+                except Exception as e:  # noqa: BLE001
+                    ctx.violation("array-elements", f"pointer-in-array-element-raises:{type(e).__name__}", dict(det, error=lib.exc_sig(e)))
+                    continue
+                if got != want:
+                    ctx.violation("array-elements", "pointer-in-an-array-element-is-not-on-the-caller-stream",
+                                  dict(det, got=repr(got), want=repr(want)))
+                else:
+                    ctx.event("pointers_in_array_elements_checked")
+
+
 def copied_pointers(ctx):
     """Copies (copy.copy / copy.deepcopy) of a pointer and of structures holding pointers: same address, same
     dereferenced value, the stream of the original is left where it was and keeps serving the original; asking a
@@ -615,7 +673,8 @@ def copied_pointers(ctx):
     for ptr in ("uint8", "uint16", "uint32", "uint64"):
         for endian in "<>":
             for compiled in (True, False):
-                text = "struct t { uint8 v; uint8 w; };\nstruct s { uint8 a; t *p; uint8 *q[2]; char *n; };"
+                text = ("struct t { uint8 v; uint8 w; };\nstruct s { uint8 a; t *p; uint8 *q[2]; char *n; };\n"
+                        "struct only { t *p; uint8 v; };")
                 ctx.evaluation(("copied-pointers", ptr, endian, compiled))
                 ctx.cell("copied-pointers")
                 det = {"text": text, "ptr": ptr, "endian": endian, "compiled": compiled, "workload": "copied-pointers"}
@@ -643,6 +702,13 @@ def copied_pointers(ctx):
                         "hasattr-null": hasattr(cs.s().p, "__nope__") is False,
                         "hasattr-target": hasattr(o.p, "v") is True and hasattr(o.p, "__nope__") is False,
                     }
+                    # a pointer handed to a constructor as the only positional value is that value: it is not probed as
+                    # if it were a stream (which would dereference it -- or raise for a null pointer)
+                    before = fh.tell()
+                    as_value = cs.s(a=1, p=o.p)
+                    single, null = cs.only(o.p), cs.only(cs.only().p)
+                    facts["pointer as constructor value"] = (int(as_value.p) == base and int(single.p) == base
+                                                             and int(single.v) == 0 and int(null.p) == 0 and fh.tell() == before)
                     # mutating what the copy points to leaves the original's target alone
                     dup.p.dereference().v = 0x99
                     facts["independent-targets"] = int(o.p.v) == 0x11
@@ -663,6 +729,8 @@ def run(ctx):
         copied_pointers(ctx)
     if ctx.shard % 8 == 4:
         linked_structures(ctx)
+    if ctx.shard % 8 == 5:
+        pointers_in_array_elements(ctx)
     if ctx.shard % 8 == 1:
         reconfigured_width(ctx, ctx.rng("reconfigured"))
     if ctx.shard % 8 == 2:
@@ -681,6 +749,10 @@ def run(ctx):
 
 
 def replay(ctx, detail):
+    if detail.get("workload") == "pointers-in-array-elements":
+        print(detail)
+        pointers_in_array_elements(ctx)
+        return
     if detail.get("workload") == "linked-structures":
         print(detail)
         linked_structures(ctx)
